@@ -769,6 +769,75 @@ func (g *gen) restartAfterRejectedRevealSig(w *world) {
 }
 
 
+// C06: a Reveal Signature message with one damaged field (r, the encrypted signature, the MAC) is rejected; the genuine
+// one that follows (the peer's retransmission, or simply the original arriving later) must still complete the very
+// same exchange — whatever the rejected message made the receiver compute must not have touched what it kept from the
+// D-H Commit. Twin: the same run without the damaged message.
+func (g *gen) genuineAfterRejectedRevealSig(w *world, k int) {
+	version := 2 + k%2
+	pol := 2
+	if version == 3 {
+		pol = 4
+	}
+	outcome := func(deliverDamaged bool) (done bool, ok bool) {
+		w.parties = map[string]*party{}
+		w.dead = false
+		a := w.newParty(partyCfg{policies: pol | 16, keyIdx: 0, errh: true})
+		b := w.newParty(partyCfg{policies: pol | 32, keyIdx: 1, errh: true})
+		fwd := func(to *party, ms []otr3.ValidMessage) (out []otr3.ValidMessage) {
+			for _, m := range ms {
+				_, ts, _, _ := w.recv(to, m)
+				out = append(out, ts...)
+			}
+			return
+		}
+		t1, _ := w.send(a, g.cleanText())
+		commit := fwd(b, t1)
+		dhkey := fwd(a, commit)
+		reveal := fwd(b, dhkey)
+		if len(reveal) != 1 || w.dead {
+			return false, false
+		}
+		if deliverDamaged {
+			bin := decodeWire(reveal[0])
+			if len(bin) < 60 {
+				return false, false
+			}
+			// where: inside the MAC, inside the encrypted signature, inside r
+			at := []int{len(bin) - 3, len(bin) - 40, len(bin) - 30 - (k/2)%200}[(k/2)%3]
+			hdr := 3
+			if version == 3 {
+				hdr = 11
+			}
+			if (k/2)%3 == 2 {
+				at = hdr + 4 + (k/6)%16 // r: DATA of 16 bytes right behind the header
+			}
+			if at < hdr+4 || at >= len(bin) {
+				at = len(bin) - 3
+			}
+			bin[at] ^= 4
+			plain, ts, _, _ := w.recv(a, encodeWire(bin))
+			if plain != nil || len(ts) > 0 {
+				return false, false // (not rejected: nothing to compare)
+			}
+		}
+		sig := fwd(a, reveal)
+		fwd(b, sig)
+		return true, a.c.IsEncrypted() && b.c.IsEncrypted() && !w.dead
+	}
+	d1, without := outcome(false)
+	d2, with := outcome(true)
+	if !d1 || !d2 {
+		return
+	}
+	olog.ok("C06")
+	g.dist[fmt.Sprintf("reject:revealsig-then-genuine:without=%v,with=%v", without, with)]++
+	if without && !with {
+		olog.viol("C06", "rejected-message-changes:same-key-exchange", fmt.Sprintf("OTRv%d: a Reveal Signature message with one damaged byte is rejected; the genuine Reveal Signature message that follows no longer completes the exchange, whereas it does when the damaged message never arrives", version))
+	}
+}
+
+
 // C06 / C18: a message that the peer reported unreadable waits for the next key exchange; a Signature
 // message that is rejected (damaged MAC) on the way must not make it disappear
 func (g *gen) pendingResendAfterRejectedSig(w *world) {
@@ -906,6 +975,10 @@ func init() {
 					break
 				}
 			}
+		}
+		// appended: the genuine Reveal Signature message right behind a damaged one (12 places of the damage x version)
+		for k := 0; k < 12; k++ {
+			g.genuineAfterRejectedRevealSig(w, k)
 		}
 		extra["panics"] = panicCount
 		olog.export(extra)
